@@ -77,12 +77,16 @@ EXACT_FNS = {"sqrt", "abs", "inv", "from_isize", "from_f64", "to_f64", "PI", "ze
 def run(ctx):
     rng = ctx.rng
     reqs = []
-    nvec = 150 if ctx.quick else 3000
+    nvec = 800 if ctx.quick else 6000
     for D in range(1, 9):
         for fn in ["add", "sub", "muls", "mulr", "addassign", "dot", "squared", "new", "new_from_num", "roundtrip"]:
             for _ in range(nvec // 10):
-                a = [rnd(rng) for _ in range(D)]
-                b = [rnd(rng) for _ in range(D)]
+                if rng.random() < 0.5:   # ordinary magnitudes: every rounding of the accumulation matters
+                    a = [rng.uniform(-10, 10) for _ in range(D)]
+                    b = [rng.uniform(-10, 10) for _ in range(D)]
+                else:
+                    a = [rnd(rng) for _ in range(D)]
+                    b = [rnd(rng) for _ in range(D)]
                 s = rnd(rng)
                 reqs.append({"op": "vec", "fn": fn, "D": D, "a": [f2b(v) for v in a], "b": [f2b(v) for v in b], "s": f2b(s)})
     nf = 3000 if ctx.quick else 100000
